@@ -11,6 +11,12 @@ Ensemble operations are additionally run on ensembles of every array shape -- n_
 n_atoms == 3, == 1 (synthetic chains; the bundled ensemble cut down / extended to 1, 3 and 17 conformers) -- with
 per-conformer stacks, core sizes and mapping counts that coincide with those numbers; every operation is judged
 conformer by conformer, and compared inside Coq with Model/RotEns.v (`echeck`).
+Sessions: SEQUENCES of operations on ONE live object (Molecule, a Conformer kept alive, a Conformer fetched anew per step) --
+the same dihedral driven from both ends, several dihedrals in a row, whole-body / substructure moves between dihedral calls,
+connect / del_bond / add_atom / del_atom (and re-wiring) between two calls on the same bond; atoms designated by position or
+by Atom object.  Every step is judged against the state the previous step left (target reached, exactly the atoms behind the
+bond in the graph AS IT IS NOW moved, rigidly) and compared inside Coq with Model/RotSeq.v (`scheck`: the model step, with the
+far side recomputed from the model's own graph, applied to the observed previous state).
 """
 import math, os, json, itertools
 from fractions import Fraction as Fr
@@ -1215,12 +1221,479 @@ def ensx_cases(ctx, specs=None, kinds=None, rng=None):
 
 
 def find_mol(ml, name):
-    """Bundled molecule, or conformer c of a synthetic ensemble ('synth:nc:na:seed#c')."""
+    """Bundled molecule, conformer c of a synthetic ensemble ('synth:nc:na:seed#c'), or a random tree ('tree:n:seed')."""
     if name.startswith("synth:"):
         body, c = name[6:].split("#")
         nc, na, seed = (int(x) for x in body.split(":"))
         return ml.Molecule(build_ens(ml, {"src": "synth", "nc": nc, "na": na, "seed": seed})[int(c)])
+    if name.startswith("tree:"):
+        n, seed = (int(x) for x in name[5:].split(":"))
+        if name not in _MOLCACHE:
+            _MOLCACHE[name] = tree_mol(ml, n, seed)
+        return _MOLCACHE[name]
     return dict(load_mols(ml)).get(name)
+
+
+# ------------------------------------------------------------------ SEQUENCES of operations on ONE live object
+# Every other family works on a fresh copy per call.  Here one object lives through a whole session: the same dihedral
+# driven from both ends (a,b,c,d) / (d,c,b,a), several dihedrals in a row, whole-body and substructure moves between
+# dihedral calls, and connectivity edits (connect, del_bond, add_atom, del_atom) between two calls on the same bond.
+# Every step is judged on its own against the state the previous step left (target reached, exactly the far side of
+# the bond AS THE GRAPH IS NOW moved, rigidly), and the Coq model (Model/RotSeq.v: `sstep`, far side recomputed from
+# the model's own graph at every step) is applied to that same state and compared with what the step left.
+SEQ_MOLS_QUICK = ["dmf_mol2#0", "pentane_confs_mol2#0", "hadd_test_mol2#0"]
+SEQ_MOLS = SEQ_MOLS_QUICK + ["fxyl_mol2#0", "pentane_confs_mol2#3", "isornitrate_mol2#0", "box_backbone_mol2#0"]
+SEQ_HOSTS = ["molecule", "molecule", "molecule", "molecule", "conformer-live", "conformer-fresh"]
+SEQ_TARGETS = [(0, 1), (1, 0), (1, 1), (-1, 2), (3, 2), (-5, 1), (2, 7), (-2, 3), (7, 3), (1, 5), (-4, 5)]
+SEQ_HEADER = HEADER.replace("Model.Rot.", "Model.Rot Model.RotSeq.")
+
+
+def tree_mol(ml, n, seed):
+    """A random tree of n atoms (degree <= 4) with generic coordinates on the 2^-12 grid."""
+    import random
+    np = np_()
+    r = random.Random(f"c11-tree/{n}/{seed}")
+    X, par, deg = [np.zeros(3)], [None], [0]
+    while len(X) < n:
+        p = r.randrange(len(X))
+        if deg[p] >= (3 if p else 4):
+            continue
+        for _ in range(200):
+            v = np.array([r.gauss(0, 1) for _ in range(3)])
+            x = np.round((X[p] + 1.5 * v / np.linalg.norm(v)) * 4096.0) / 4096.0
+            if min(np.linalg.norm(x - y) for y in X) > 1.0:
+                break
+        else:
+            continue
+        X.append(x)
+        par.append(p)
+        deg[p] += 1
+        deg.append(0)
+    xyz = f"{n}\ntree{n}\n" + "".join(f"{ELTS[i % len(ELTS)]} {float(a)!r} {float(b)!r} {float(c)!r}\n" for i, (a, b, c) in enumerate(X))
+    m = ml.Molecule.loads_xyz(xyz)
+    for i in range(1, n):
+        m.connect(par[i], i)
+    m.coords = np.array(X, dtype=float)
+    return m
+
+
+class PlanGraph:
+    """The planner's own bookkeeping of the connectivity during a session (positions shift on del_atom; `ids` keeps a
+    persistent name per atom so that 'the same bond as before' survives renumbering)."""
+
+    def __init__(self, n, edges):
+        self.n = n
+        self.E = {frozenset(e) for e in edges}
+        self.ids = list(range(n))
+        self.next_id = n
+
+    def adj(self):
+        a = {i: set() for i in range(self.n)}
+        for e in self.E:
+            i, j = tuple(e)
+            a[i].add(j)
+            a[j].add(i)
+        return a
+
+    def quads(self, rng):
+        """one (i1,i2,i3,i4) per direction of every rotatable acyclic bond"""
+        a = self.adj()
+        out = []
+        for i2 in range(self.n):
+            for i3 in sorted(a[i2]):
+                if i2 in far_side(a, i2, i3):
+                    continue
+                n1, n4 = sorted(a[i2] - {i3}), sorted(a[i3] - {i2})
+                if n1 and n4:
+                    out.append((rng.choice(n1), i2, i3, rng.choice(n4)))
+        return out
+
+    def connect(self, i, j):
+        self.E.add(frozenset((i, j)))
+
+    def del_bond(self, i, j):
+        self.E.discard(frozenset((i, j)))
+
+    def add_atom(self):
+        self.n += 1
+        self.ids.append(self.next_id)
+        self.next_id += 1
+        return self.n - 1
+
+    def del_atom(self, i):
+        ren = lambda k: k - 1 if k > i else k
+        self.E = {frozenset(ren(k) for k in e) for e in self.E if i not in e}
+        self.n -= 1
+        del self.ids[i]
+
+
+def gen_seq(rng, n, edges, host, theme, length):
+    """A session plan: list of ops with POSITIONAL indices valid at the time of the step.
+         ["rd", [i1,i2,i3,i4], p, q]         rotate_dihedral to the angle with tan(t/2) = p/q
+         ["t", idx|None, v]  ["r", idx|None, M]   translate / transform, whole object or substructure(idx)
+         ["connect", i, j]  ["delbond", i, j]  ["add", j, d]  (new atom at x_j + d)  ["del", i]"""
+    g = PlanGraph(n, edges)
+    edits_ok = host == "molecule"
+    ops = []
+    focus = None               # (id2, id3) of the bond last driven, by persistent ids
+    n_rd = 0
+
+    def pos(idv):
+        return g.ids.index(idv) if idv in g.ids else None
+
+    def q():
+        return float(Fr(rng.randint(-1024, 1024), 256))
+
+    def pick_rd():
+        nonlocal focus, n_rd
+        quads = g.quads(rng)
+        if not quads:
+            return False
+        cand = None
+        if focus is not None and rng.random() < (0.8 if theme in ("both-ends", "edits-between", "moves-between") else 0.45):
+            p2, p3 = pos(focus[0]), pos(focus[1])
+            same = [x for x in quads if (x[1], x[2]) == (p2, p3)]
+            other = [x for x in quads if (x[1], x[2]) == (p3, p2)]
+            pool = other if (other and rng.random() < (0.7 if theme == "both-ends" else 0.5)) else same
+            if pool:
+                cand = rng.choice(pool)
+        if cand is None:
+            cand = rng.choice(quads)
+        focus = (g.ids[cand[1]], g.ids[cand[2]])
+        p, qq = rng.choice(SEQ_TARGETS)
+        ops.append(["rd", list(cand), p, qq])
+        n_rd += 1
+        return True
+
+    def pick_move():
+        whole = rng.random() < 0.5
+        idx = None if whole else rng.sample(range(g.n), rng.randint(1, max(1, g.n - 1)))
+        if rng.random() < 0.5:
+            ops.append(["t", idx, [q(), q(), q()]])
+        else:
+            ops.append(["r", idx, nontrivial_rot(rng)])
+
+    def pick_edit():
+        a = g.adj()
+        r = rng.random()
+        side = None
+        if focus is not None and pos(focus[0]) is not None and pos(focus[1]) is not None and frozenset((pos(focus[0]), pos(focus[1]))) in g.E:
+            side = sorted(far_side(a, pos(focus[0]), pos(focus[1])))
+        if r < 0.3:                                       # a new atom, bonded behind the bond in focus (either side) or left alone
+            anchor = rng.choice(side) if side and rng.random() < 0.6 else rng.randrange(g.n)
+            d = [float(Fr(rng.choice((-1, 1)) * rng.randint(200, 400), 256)) for _ in range(3)]
+            ops.append(["add", anchor, d])
+            k = g.add_atom()
+            if rng.random() < 0.85:
+                ops.append(["connect", k, anchor])
+                g.connect(k, anchor)
+        elif r < 0.5 and g.n > 5:                         # delete an atom: mostly leaves, mostly behind the bond in focus
+            leaves = [i for i in range(g.n) if len(a[i]) <= 1]
+            pool = [i for i in leaves if side and i in side and len(side) > 1] or leaves
+            i = rng.choice(pool) if pool and rng.random() < 0.8 else rng.randrange(g.n)
+            ops.append(["del", i])
+            g.del_atom(i)
+        elif r < 0.7 and g.E:                             # re-wire: cut a substituent off and bond it somewhere else
+            fp = {pos(focus[0]), pos(focus[1])} if focus is not None else set()
+            cand = []
+            for e in sorted(tuple(sorted(e)) for e in g.E):
+                for x, y in (e, e[::-1]):
+                    frag = far_side(a, x, y)
+                    if x not in frag and not (frag & fp) and len(frag) <= max(1, g.n // 3):
+                        cand.append((x, y, frag))
+            if not cand:
+                return
+            x, y, frag = rng.choice(cand)
+            zs = [z for z in range(g.n) if z not in frag and z != x]
+            if not zs:
+                return
+            z = rng.choice(zs)
+            ops.append(["delbond", x, y])
+            g.del_bond(x, y)
+            ops.append(["connect", y, z])
+            g.connect(y, z)
+        elif r < 0.85 and g.E:                            # delete a bond: leaf bonds and ring closures preferred
+            es = sorted(tuple(sorted(e)) for e in g.E)
+            pref = [e for e in es if len(a[e[0]]) == 1 or len(a[e[1]]) == 1 or e[0] in far_side(a, e[0], e[1])]
+            i, j = rng.choice(pref if pref and rng.random() < 0.8 else es)
+            if rng.random() < 0.5:
+                i, j = j, i
+            ops.append(["delbond", i, j])
+            g.del_bond(i, j)
+        else:                                             # a new bond: re-attach a detached atom, or close a ring
+            pairs = [(i, j) for i in range(g.n) for j in range(i + 1, g.n) if j not in a[i]]
+            if not pairs:
+                return
+            detached = [(i, j) for i, j in pairs if not a[i] or not a[j]]
+            i, j = rng.choice(detached if detached and rng.random() < 0.7 else pairs)
+            if rng.random() < 0.5:
+                i, j = j, i
+            ops.append(["connect", i, j])
+            g.connect(i, j)
+
+    pick_rd()
+    while len(ops) < length:
+        r = rng.random()
+        if theme == "several" or r < 0.25:
+            pass
+        elif theme == "moves-between" or (r < 0.55 and theme != "edits-between") or not edits_ok:
+            pick_move()
+        else:
+            pick_edit()
+        if not pick_rd():
+            pick_move()
+    return ops
+
+
+def sweep_seq(rng, n, edges):
+    """every rotatable acyclic bond of the molecule, driven from one end and then from the other, on one object"""
+    g = PlanGraph(n, edges)
+    ops = []
+    quads = g.quads(rng)
+    seen = set()
+    for qd in quads:
+        if (qd[2], qd[1]) in seen:
+            continue
+        seen.add((qd[1], qd[2]))
+        back = next((x for x in quads if (x[1], x[2]) == (qd[2], qd[1])), None)
+        ops.append(["rd", list(qd), *rng.choice(SEQ_TARGETS)])
+        if back is not None:
+            ops.append(["rd", list(back), *rng.choice(SEQ_TARGETS)])
+    return ops
+
+
+def seq_graph(m):
+    return sorted(tuple(sorted((m.get_atom_index(b.a1), m.get_atom_index(b.a2)))) for b in m.bonds)
+
+
+def graphq(edges):
+    return cq_list(f"({cq_nat(i)}, {cq_nat(j)})" for i, j in edges)
+
+
+def run_seq(ml, plan):
+    """One session on one live object.  Returns (term|None, violation|None, info)."""
+    np = np_()
+    name, host, desig = plan["mol"], plan["host"], plan.get("desig", "index")
+    m0 = find_mol(ml, name)
+    if m0 is None:
+        return None, None, {"skipped": "no such molecule"}
+    ens = None
+    if host == "molecule":
+        obj = ml.Molecule(m0)
+    else:
+        import random
+        r = random.Random("c11-seq-ens/" + name)
+        mols = []
+        for c in range(3):
+            mc = ml.Molecule(m0)
+            if c != 1:
+                mc.coords = np.round((np.asarray(m0.coords, dtype=float) @ np.array(nontrivial_rot(r)) + np.array([r.uniform(-3, 3) for _ in range(3)])) * 4096.0) / 4096.0
+            mols.append(mc)
+        ens = ml.ConformerEnsemble(mols)
+        obj = ens[1]
+    counts = [f"seq-host:{host}", f"seq-designators:{desig}"]
+    info = {"counts": counts}
+    G0 = seq_graph(obj)
+    X_start = np.asarray(obj.coords, dtype=float).copy()
+    steps = []
+    viol = None
+    driven = {}                 # bond (by Atom objects, frozenset) -> set of directions (id(a2), id(a3)) driven so far
+    edited_since = {}           # bond -> connectivity edited since it was last driven
+    moved_since = {}
+    executed = 0
+    for k, op in enumerate(plan["ops"]):
+        if host == "conformer-fresh":
+            obj = ens[1]
+        kind = op[0]
+        use_atoms = desig == "atom" or (desig == "mixed" and k % 2 == 1)
+        atoms_now = list(obj.atoms)
+        des = (lambda i: atoms_now[i]) if use_atoms else (lambda i: int(i))
+        X0 = np.asarray(obj.coords, dtype=float).copy()
+        E_before = None if ens is None else np.asarray(ens.coords, dtype=float).copy()
+        n = X0.shape[0]
+        lbl = f"{name} [{host}], step {k} of the session ({kind})"
+        scale = 1.0 + float(np.abs(X0).max())
+        try:
+            if kind == "rd":
+                quad, p, qq = tuple(op[1]), op[2], op[3]
+                if max(quad) >= n:
+                    info["skipped_from"] = k
+                    break
+                i1, i2, i3, i4 = quad
+                adj = adjacency(obj)
+                if i3 not in adj[i2] or i1 not in adj[i2] or i4 not in adj[i3]:
+                    counts.append("seq:graph-differs-from-plan")
+                    break
+                side = far_side(adj, i2, i3)
+                if i2 in side or i1 in side:
+                    counts.append("seq:graph-differs-from-plan")
+                    break
+                u2 = [fr(X0[i3][c]) - fr(X0[i2][c]) for c in range(3)]
+                n2 = qsqrt(fdot(u2, u2))
+                g1, g2 = exact_dihedral_args(X0, quad, n2)
+                if g1 * g1 + g2 * g2 < Fr(1, 10 ** 6):
+                    counts.append("seq:rd-degenerate-skipped")
+                    continue
+                rho = qsqrt(g1 * g1 + g2 * g2)
+                st, ct = (Fr(0), Fr(-1)) if qq == 0 else rat_sincos(p, qq)
+                target = math.atan2(float(st), float(ct))
+                bkey = frozenset((id(atoms_now[i2]), id(atoms_now[i3])))
+                dirn = (id(atoms_now[i2]), id(atoms_now[i3]))
+                hist = driven.get(bkey)
+                if hist is None:
+                    counts.append("seq:rd:bond-first-time")
+                else:
+                    counts.append("seq:rd:same-bond-" + ("same-end" if dirn in hist else "other-end"))
+                    if edited_since.get(bkey):
+                        counts.append("seq:rd:same-bond-after-connectivity-edit")
+                    if moved_since.get(bkey):
+                        counts.append("seq:rd:same-bond-after-move")
+                how = ("first call on this bond" if hist is None else
+                       "bond driven before from " + ("the same end" if dirn in hist else "the OTHER end")
+                       + (", connectivity edited since" if edited_since.get(bkey) else ""))
+                obj.rotate_dihedral(tuple(des(i) for i in quad), target)
+                X1 = np.asarray(obj.coords, dtype=float).copy()
+                driven.setdefault(bkey, set()).add(dirn)
+                edited_since[bkey] = False
+                moved_since[bkey] = False
+                for b in driven:
+                    if b != bkey:
+                        moved_since[b] = True
+                term_op = (f"(SRotDih {cq_nat(i1)} {cq_nat(i2)} {cq_nat(i3)} {cq_nat(i4)} {cq_Q(st)} {cq_Q(ct)} {cq_Q(n2)} {cq_Q(rho)})")
+                if X1.shape != X0.shape:
+                    viol = ("sequence:rotate_dihedral:shape-changed", f"{lbl}: coordinates {X0.shape} -> {X1.shape}")
+                else:
+                    d1 = float(obj.dihedral(*quad))
+                    others = [i for i in range(n) if i not in side]
+                    moved_outside = [i for i in others if np.abs(X1[i] - X0[i]).max() > ORACLE_EPS]
+                    if moved_outside:
+                        viol = ("sequence:rotate_dihedral:other-atoms-moved",
+                                f"{lbl}: rotate_dihedral({quad}) ({how}) moved atoms {moved_outside[:6]}, which are not behind the bond {i2}->{i3} in the molecule as it is now")
+                    elif ang_diff(d1, target) > ORACLE_EPS:
+                        viol = ("sequence:rotate_dihedral:target-missed",
+                                f"{lbl}: rotate_dihedral({quad}, {target:.6f}) ({how}) leaves the dihedral at {d1:.6f}")
+                    else:
+                        sv = shape_violation(X0, X1, sorted(side), 81)
+                        if sv:
+                            viol = ("sequence:rotate_dihedral:" + sv[0], f"{lbl}: rotate_dihedral({quad}) ({how}), within the part behind the bond as it is now: {sv[1]}")
+            elif kind in ("t", "r"):
+                idx, arg = op[1], op[2]
+                if idx is not None and max(idx) >= n:
+                    break
+                tgt = obj if idx is None else obj.substructure([des(i) for i in idx])
+                if kind == "t":
+                    tgt.translate(list(arg))
+                else:
+                    tgt.transform(np.array(arg))
+                X1 = np.asarray(obj.coords, dtype=float).copy()
+                for b in driven:
+                    moved_since[b] = True
+                counts.append("seq:move:" + ("whole" if idx is None else "substructure"))
+                sel = list(range(n)) if idx is None else sorted(set(idx))
+                rest = [i for i in range(n) if i not in set(sel)]
+                idxq = "None" if idx is None else f"(Some {natl(idx)})"
+                term_op = f"(STranslate {idxq} {vq(arg)})" if kind == "t" else f"(STransform {idxq} {mq(arg)})"
+                opname = "translate" if kind == "t" else "transform"
+                if X1.shape != X0.shape:
+                    viol = (f"sequence:{opname}:shape-changed", f"{lbl}: coordinates {X0.shape} -> {X1.shape}")
+                else:
+                    want = X0.copy()
+                    want[sel] = (X0[sel] + np.array(arg)) if kind == "t" else (X0[sel] @ np.array(arg))
+                    if rest and np.abs(X1[rest] - X0[rest]).max() > 0:
+                        bad = [i for i in rest if np.abs(X1[i] - X0[i]).max() > 0]
+                        viol = (f"sequence:{opname}:other-atoms-moved", f"{lbl}: {opname} through substructure {sel[:8]} changed atoms {bad[:6]}")
+                    else:
+                        sv = shape_violation(X0, X1, sel, 82)
+                        if sv:
+                            viol = (f"sequence:{opname}:" + sv[0], f"{lbl}: {sv[1]}")
+                        elif np.abs(X1 - want).max() > ORACLE_EPS * scale:
+                            viol = (f"sequence:{opname}:wrong-result", f"{lbl}: the selected atoms kept their shape but are {np.abs(X1 - want).max():.6f} away from where that motion puts them")
+            else:
+                if host != "molecule":
+                    continue
+                if kind == "connect":
+                    i, j = op[1], op[2]
+                    if max(i, j) >= n:
+                        break
+                    obj.connect(des(i), des(j))
+                    term_op = f"(SConnect {cq_nat(i)} {cq_nat(j)})"
+                elif kind == "delbond":
+                    i, j = op[1], op[2]
+                    if max(i, j) >= n:
+                        break
+                    b = obj.lookup_bond(des(i), des(j))
+                    if b is None:
+                        counts.append("seq:graph-differs-from-plan")
+                        break
+                    obj.del_bond(b)
+                    term_op = f"(SDelBond {cq_nat(i)} {cq_nat(j)})"
+                elif kind == "add":
+                    j, d = op[1], op[2]
+                    if j >= n:
+                        break
+                    pnew = [float(X0[j][c] + d[c]) for c in range(3)]
+                    obj.add_atom(ml.Atom("H"), pnew)
+                    term_op = f"(SAddAtom {vq(pnew)})"
+                else:
+                    i = op[1]
+                    if i >= n:
+                        break
+                    obj.del_atom(des(i))
+                    term_op = f"(SDelAtom {cq_nat(i)})"
+                counts.append("seq:edit:" + kind)
+                for b in driven:
+                    edited_since[b] = True
+                X1 = np.asarray(obj.coords, dtype=float).copy()
+                if X1.shape[0] != obj.n_atoms:
+                    info["skipped"] = "connectivity edit left atoms and coordinates misaligned (C05)"
+                    break
+        except Exception as e:  # noqa
+            opname = {"rd": "rotate_dihedral", "t": "translate", "r": "transform"}.get(kind, kind)
+            viol = (f"sequence:{opname}:raises-{type(e).__name__}", f"{lbl}: {opname} raised {e!r} after {executed} earlier operations on this object")
+            break
+        if viol is None and ens is not None:
+            E_after = np.asarray(ens.coords, dtype=float)
+            oth = [c for c in range(E_after.shape[0]) if c != 1]
+            if E_after.shape != E_before.shape or np.abs(E_after[oth] - E_before[oth]).max() > 0:
+                viol = ("sequence:other-conformer-moved", f"{lbl}: an operation on conformer 1 changed another conformer of the ensemble")
+        executed += 1
+        steps.append(f"({term_op}, {rowsq(X1.tolist())})")
+        if viol:
+            break
+    info["n_steps"] = executed
+    if not steps:
+        return None, viol, info
+    term = f"(SCase {rowsq(X_start.tolist())} {graphq(G0)} {cq_list(steps)})"
+    return term, viol, info
+
+
+def seq_cases(ctx, rng=None):
+    """(kind, key, replay_dict, thunk) of the session family."""
+    import molli as ml
+    rng = rng or ctx.rng
+    themes = ["both-ends", "edits-between", "moves-between", "edits-between", "random", "several", "edits-between", "random"]
+    names = (list(SEQ_MOLS if ctx.thorough else SEQ_MOLS_QUICK)
+             + [f"tree:{n}:{rng.randrange(10 ** 6)}" for n in ((6, 8, 9, 11, 12) if not ctx.thorough else (6, 7, 8, 9, 10, 11, 12, 13, 14, 16, 18, 20))])
+    plans = []
+    for name in names[:2] if not ctx.thorough else names:
+        m = find_mol(ml, name)
+        if m is not None:
+            plans.append({"kind": "seq", "mol": name, "host": "molecule", "desig": "index", "theme": "sweep", "ops": sweep_seq(rng, m.n_atoms, seq_graph(m))})
+    nses = 24 if not ctx.thorough else 240
+    for s in range(nses):
+        name = names[s % len(names)]
+        m = find_mol(ml, name)
+        if m is None:
+            continue
+        host = SEQ_HOSTS[(s // len(names) + s) % len(SEQ_HOSTS)]
+        theme = themes[s % len(themes)]
+        if host != "molecule" and theme == "edits-between":
+            theme = "both-ends"
+        ops = gen_seq(rng, m.n_atoms, seq_graph(m), host, theme, (rng.randint(4, 7) + (2 if theme == "edits-between" else 0)) if not ctx.thorough else rng.randint(5, 11))
+        plans.append({"kind": "seq", "mol": name, "host": host, "desig": rng.choice(["index", "atom", "mixed"]), "theme": theme, "ops": ops})
+    for plan in plans:
+        yield "sequence:" + plan["theme"], ("seq", plan["mol"], plan["host"], plan["desig"], json.dumps(plan["ops"])), plan, \
+            (lambda plan=plan: run_seq(ml, plan))
 
 
 # ------------------------------------------------------------------ the run
@@ -1309,6 +1782,8 @@ def all_cases(ctx):
         idxs, ref, vec = ensx_align_setup(rng, np.asarray(m.coords, dtype=float)[None, :, :], rng.randint(1, 3))
         rd = {"kind": "align", "mol": name, "idxs": idxs, "ref": ref.tolist(), "vec": vec}
         yield "align:molecule:tiny", ("align", name, json.dumps(idxs), json.dumps(ref.tolist())), rd, (lambda name=name, m=m, idxs=idxs, ref=ref, vec=vec, u=rng.random(): run_align_case(ml, name, m, idxs, ref, vec, u))
+    # sessions: sequences of geometric operations and connectivity edits on one live object
+    yield from seq_cases(ctx)
 
 
 def run_dihedral_case(ml, name, m, quad):
@@ -1359,6 +1834,10 @@ def run(ctx, rep):
                         "ensemble-shape family: rotate() given an (n_conformers,3,3) stack is judged when it returns (a rotate() that rejects "
                         "stacks is judged through align_to_ref_coords only); scale(f) is compared with the model and judged as a similarity (f > 0)",
                         "atoms selected by yield_bfs are taken from the implementation (graph search is C15); the oracle recomputes the far side independently",
+                        "sessions (Model/RotSeq.v): the far side is computed by the MODEL from its own graph (bonds observed at the start of the "
+                        "session, then the model's connect/del_bond/add_atom/del_atom); each model step starts from the coordinates observed after "
+                        "the previous step, so rounding does not accumulate; a dihedral call whose arctan2 arguments are below 1e-3 in norm at that "
+                        "moment is skipped; connectivity edits themselves are judged by C05, here only through the model comparison",
                         "arctan2 is not modelled: dihedral()'s result is compared through its sine and cosine",
                         "antiparallel branch: the orthogonal vector comes from np.random (hidden state); it is observed through a recording "
                         "wrapper when the code draws it that way, otherwise only the specification (proper, maps v1 to v2) is checked in Coq; "
@@ -1366,6 +1845,7 @@ def run(ctx, rep):
     ok, out, where = vlib.build_props(ctx, rep, "C11")
     terms, owners = [], []
     eterms, eowners = [], []
+    sterms, sowners = [], []
     found = False
     oracle_viol = {}
     n_by_kind = {}
@@ -1381,6 +1861,8 @@ def run(ctx, rep):
             rep.count("parent-edit:" + e)
         for t in info.get("counts", ()):
             rep.count(t)
+        if info.get("n_steps"):
+            rep.count("seq:steps", info["n_steps"])
         if viol:
             found = True
             sig = "C11:" + (kind.split(":")[0] + ":" if kind.split(":")[0] in ("vec", "axis") else "") + viol[0]
@@ -1394,6 +1876,10 @@ def run(ctx, rep):
         if term.startswith("(XEns"):
             eterms.append(term)
             eowners.append(i)
+            continue
+        if term.startswith("(SCase"):
+            sterms.append(term)
+            sowners.append(i)
             continue
         terms.append(term)
         owners.append(i)
@@ -1413,13 +1899,22 @@ def run(ctx, rep):
     eterms = [eterms[j] for j in eorder]
     eowners = [eowners[j] for j in eorder]
     ebad = vlib.run_shards(ctx, rep, "c11e", HEADER_E, "echeck", eterms, shard=max(1, -(-len(eterms) // ensh)), timeout=900, case_type="ecase")
-    rep.extra["shard_cases"] = len(terms) + len(eterms)
-    if bad is None or ebad is None:
+    # sessions (Model/RotSeq.v, `scheck`): longest first, dealt round-robin
+    ssize = 2 if not ctx.thorough else 12
+    snsh = max(1, -(-len(sterms) // ssize))
+    sorder = sorted(range(len(sterms)), key=lambda j: -len(sterms[j]))
+    sorder = [sorder[j] for s0 in range(snsh) for j in range(s0, len(sorder), snsh)]
+    sterms = [sterms[j] for j in sorder]
+    sowners = [sowners[j] for j in sorder]
+    sbad = vlib.run_shards(ctx, rep, "c11s", SEQ_HEADER, "scheck", sterms, shard=max(1, -(-len(sterms) // snsh)), timeout=900, case_type="scase")
+    rep.extra["shard_cases"] = len(terms) + len(eterms) + len(sterms)
+    if bad is None or ebad is None or sbad is None:
         vlib.broken_obligation(rep, "corr_c11", "a correspondence shard did not compile: " + str(rep.extra.get("shard_errors", ""))[-800:], found)
         bad = bad or []
         ebad = ebad or []
-    owners = owners + eowners
-    bad = list(bad) + [len(terms) + b for b in ebad]
+        sbad = sbad or []
+    bad = list(bad) + [len(terms) + b for b in ebad] + [len(terms) + len(eterms) + b for b in sbad]
+    owners = owners + eowners + sowners
     if bad:
         unexplained = [owners[b] for b in bad if owners[b] not in oracle_viol]
         rep.extra["mismatching_cases"] = [items[owners[b]][2] for b in bad[:10]]
@@ -1502,6 +1997,8 @@ def replay(ctx, data):
             res = run_ensx(ml, data["spec"], [tuple(o) for o in data["ops"]])
         elif k == "ensxalign":
             res = run_ensx_align(ml, data["spec"], data["idxs"], np.array(data["ref"]), data["vec"])
+        elif k == "seq":
+            res = run_seq(ml, data)
     if res is None or res[1] is None:
         return []
     return [vlib.Violation(pre + res[1][0], res[1][1], data)]
